@@ -37,14 +37,13 @@ func die(code int, f string, a ...any) {
 	os.Exit(code)
 }
 
-func main() {
-	if len(os.Args) < 2 {
-		die(2, "usage: drivergen <pkgdir> [genfile]")
-	}
-	dir := os.Args[1]
-	gen := "k_band.go"
-	if len(os.Args) > 2 {
-		gen = os.Args[2]
+func loadDecls(dir string) []Decl {
+	var ds []Decl
+	if b, err := os.ReadFile(filepath.Join(dir, "decls.json")); err == nil {
+		if err := json.Unmarshal(b, &ds); err != nil {
+			die(2, "%v", err)
+		}
+		return ds
 	}
 	var d Decl
 	b, err := os.ReadFile(filepath.Join(dir, "decl.json"))
@@ -54,6 +53,19 @@ func main() {
 	if err := json.Unmarshal(b, &d); err != nil {
 		die(2, "%v", err)
 	}
+	return []Decl{d}
+}
+
+func main() {
+	if len(os.Args) < 2 {
+		die(2, "usage: drivergen <pkgdir> [genfile]")
+	}
+	dir := os.Args[1]
+	gen := "k_band.go"
+	if len(os.Args) > 2 {
+		gen = os.Args[2]
+	}
+	decls := loadDecls(dir)
 	genPath := filepath.Join(dir, gen)
 	src, err := os.ReadFile(genPath)
 	if err != nil {
@@ -64,74 +76,137 @@ func main() {
 	if err != nil {
 		die(3, "generated file does not parse: %v", err)
 	}
-	var fn *ast.FuncDecl
+	funcs := map[string]*ast.FuncDecl{}
 	nfuncs := 0
 	for _, dc := range f.Decls {
 		if fd, ok := dc.(*ast.FuncDecl); ok {
 			nfuncs++
-			if fd.Name.Name == d.Injector {
-				fn = fd
-			}
+			funcs[fd.Name.Name] = fd
 		}
 	}
-	if fn == nil {
-		die(3, "generated file has no function %s", d.Injector)
-	}
-	// signature
-	var params, results []string
-	if fn.Type.Params != nil {
-		for _, fl := range fn.Type.Params.List {
-			n := len(fl.Names)
-			if n == 0 {
-				n = 1
-			}
-			for i := 0; i < n; i++ {
-				params = append(params, types.ExprString(fl.Type))
-			}
-		}
-	}
-	if fn.Type.Results != nil {
-		for _, fl := range fn.Type.Results.List {
-			n := len(fl.Names)
-			if n == 0 {
-				n = 1
-			}
-			for i := 0; i < n; i++ {
-				results = append(results, types.ExprString(fl.Type))
-			}
-		}
-	}
-	sig, _ := json.Marshal(map[string]any{"name": fn.Name.Name, "params": params, "results": results, "nfuncs": nfuncs})
-	_ = os.WriteFile(filepath.Join(dir, "sig.json"), sig, 0o644)
-
-	// instrument returns (text insertion keeps every line number)
 	type ins struct {
 		off  int
 		text string
 	}
 	var inss []ins
-	var walk func(n ast.Node, inLit bool)
-	walk = func(n ast.Node, inLit bool) {
-		ast.Inspect(n, func(x ast.Node) bool {
-			switch v := x.(type) {
-			case *ast.FuncLit:
-				if v != n {
-					walk(v.Body, true)
-					return false
+	var cfgs []string
+	sigs := map[string]any{}
+	for _, d := range decls {
+		fn := funcs[d.Injector]
+		if fn == nil {
+			die(3, "generated file has no function %s", d.Injector)
+		}
+		var params, results []string
+		if fn.Type.Params != nil {
+			for _, fl := range fn.Type.Params.List {
+				n := len(fl.Names)
+				if n == 0 {
+					n = 1
 				}
-			case *ast.ReturnStmt:
-				line := fset.Position(v.Pos()).Line
-				name := "verif_mark"
-				if inLit {
-					name = "verif_markg"
+				for i := 0; i < n; i++ {
+					params = append(params, types.ExprString(fl.Type))
 				}
-				inss = append(inss, ins{fset.Position(v.Pos()).Offset, fmt.Sprintf("%s(%d); ", name, line)})
 			}
-			return true
-		})
+		}
+		if fn.Type.Results != nil {
+			for _, fl := range fn.Type.Results.List {
+				n := len(fl.Names)
+				if n == 0 {
+					n = 1
+				}
+				for i := 0; i < n; i++ {
+					results = append(results, types.ExprString(fl.Type))
+				}
+			}
+		}
+		sigs[d.ID] = map[string]any{"name": fn.Name.Name, "params": params, "results": results, "nfuncs": nfuncs}
+		var walk func(n ast.Node, inLit bool)
+		walk = func(n ast.Node, inLit bool) {
+			ast.Inspect(n, func(x ast.Node) bool {
+				switch v := x.(type) {
+				case *ast.FuncLit:
+					if v != n {
+						walk(v.Body, true)
+						return false
+					}
+				case *ast.ReturnStmt:
+					line := fset.Position(v.Pos()).Line
+					name := "verif_mark"
+					if inLit {
+						name = "verif_markg"
+					}
+					inss = append(inss, ins{fset.Position(v.Pos()).Offset, fmt.Sprintf("%s(%d); ", name, line)})
+				}
+				return true
+			})
+		}
+		if fn.Body != nil {
+			walk(fn.Body, false)
+		}
+		hasErr := len(results) > 0 && results[len(results)-1] == "error"
+		nval := len(results)
+		if hasErr {
+			nval--
+		}
+		if nval != 1 {
+			die(3, "generated function %s has %d non-error results", d.Injector, nval)
+		}
+		hasCtx := false
+		var args []string
+		for _, p := range params {
+			if strings.HasSuffix(p, ".Context") {
+				hasCtx = true
+				args = append(args, "ctx")
+				continue
+			}
+			name := strings.TrimPrefix(p, "*")
+			ptr := strings.HasPrefix(p, "*")
+			ty, ok := d.Types[name]
+			if !ok {
+				die(3, "parameter type %s of %s is not a type of the declaration", p, d.Injector)
+			}
+			term := fmt.Sprintf("%q", "arg:"+name)
+			switch {
+			case ty.Form == "iface" && !ptr:
+				args = append(args, "rt.Obj{Term: "+term+"}")
+			case ty.Form == "ptr" && ptr, ty.Form == "val" && !ptr:
+				args = append(args, "mk_"+name+"("+term+")")
+			case ty.Form == "ptr" && !ptr:
+				args = append(args, "*mk_"+name+"("+term+")")
+			case ty.Form == "val" && ptr:
+				args = append(args, "func() *"+name+" { v := mk_"+name+"("+term+"); return &v }()")
+			default:
+				die(3, "cannot build an argument of type %s", p)
+			}
+		}
+		var fall []string
+		for _, p := range d.Providers {
+			if p.Fallible {
+				fall = append(fall, fmt.Sprintf("%q: true", p.ID))
+			}
+		}
+		call := fmt.Sprintf("%s(%s)", d.Injector, strings.Join(args, ", "))
+		var body string
+		if hasErr {
+			body = "r, err := " + call + "\n\t\t\t\treturn rt.TermOf(r), err"
+		} else {
+			body = "r := " + call + "\n\t\t\t\treturn rt.TermOf(r), nil"
+		}
+		cfgs = append(cfgs, fmt.Sprintf(`		%q: {
+			Decl: %q, GenFile: %q, HasErr: %v, HasCtx: %v,
+			Fallible: map[string]bool{%s},
+			Call: func(ctx context.Context) (string, error) {
+				_ = ctx
+				%s
+			},
+		},`, d.ID, d.ID, gen, hasErr, hasCtx, strings.Join(fall, ", "), body))
 	}
-	if fn.Body != nil {
-		walk(fn.Body, false)
+	if len(decls) == 1 {
+		sg, _ := json.Marshal(sigs[decls[0].ID])
+		_ = os.WriteFile(filepath.Join(dir, "sig.json"), sg, 0o644)
+	} else {
+		sg, _ := json.Marshal(sigs)
+		_ = os.WriteFile(filepath.Join(dir, "sigs.json"), sg, 0o644)
 	}
 	sort.Slice(inss, func(i, j int) bool { return inss[i].off > inss[j].off })
 	out := string(src)
@@ -141,57 +216,6 @@ func main() {
 	_ = os.WriteFile(genPath+".orig", src, 0o644)
 	if err := os.WriteFile(genPath, []byte(out), 0o644); err != nil {
 		die(2, "%v", err)
-	}
-
-	// driver
-	hasErr := len(results) > 0 && results[len(results)-1] == "error"
-	nval := len(results)
-	if hasErr {
-		nval--
-	}
-	if nval != 1 {
-		die(3, "generated function has %d non-error results", nval)
-	}
-	hasCtx := false
-	var args []string
-	for _, p := range params {
-		if p == "context.Context" {
-			hasCtx = true
-			args = append(args, "ctx")
-			continue
-		}
-		name := strings.TrimPrefix(p, "*")
-		ptr := strings.HasPrefix(p, "*")
-		ty, ok := d.Types[name]
-		if !ok {
-			die(3, "parameter type %s is not a type of the declaration", p)
-		}
-		term := fmt.Sprintf("%q", "arg:"+name)
-		switch {
-		case ty.Form == "iface" && !ptr:
-			args = append(args, "rt.Obj{Term: "+term+"}")
-		case ty.Form == "ptr" && ptr, ty.Form == "val" && !ptr:
-			args = append(args, "mk_"+name+"("+term+")")
-		case ty.Form == "ptr" && !ptr:
-			args = append(args, "*mk_"+name+"("+term+")")
-		case ty.Form == "val" && ptr:
-			args = append(args, "func() *"+name+" { v := mk_"+name+"("+term+"); return &v }()")
-		default:
-			die(3, "cannot build an argument of type %s", p)
-		}
-	}
-	var fall []string
-	for _, p := range d.Providers {
-		if p.Fallible {
-			fall = append(fall, fmt.Sprintf("%q: true", p.ID))
-		}
-	}
-	call := fmt.Sprintf("%s(%s)", d.Injector, strings.Join(args, ", "))
-	var body string
-	if hasErr {
-		body = "r, err := " + call + "\n\t\t\treturn rt.TermOf(r), err"
-	} else {
-		body = "r := " + call + "\n\t\t\treturn rt.TermOf(r), nil"
 	}
 	mainSrc := fmt.Sprintf(`// Code generated by drivergen (verification harness). DO NOT EDIT.
 package main
@@ -206,16 +230,11 @@ var verif_mark = rt.Mark
 var verif_markg = rt.MarkG
 
 func main() {
-	rt.Main(rt.Config{
-		Decl: %q, GenFile: %q, HasErr: %v, HasCtx: %v,
-		Fallible: map[string]bool{%s},
-		Call: func(ctx context.Context) (string, error) {
-			_ = ctx
-			%s
-		},
+	rt.MainMulti(map[string]rt.Config{
+%s
 	})
 }
-`, d.ID, gen, hasErr, hasCtx, strings.Join(fall, ", "), body)
+`, strings.Join(cfgs, "\n"))
 	if err := os.WriteFile(filepath.Join(dir, "main.go"), []byte(mainSrc), 0o644); err != nil {
 		die(2, "%v", err)
 	}
